@@ -11,6 +11,7 @@ import (
 	"encoding/json"
 	"fmt"
 	"sort"
+	"strings"
 
 	"cuelabs.dev/go/oci/ociregistry/ociref"
 	"github.com/opencontainers/go-digest"
@@ -31,9 +32,10 @@ type Man struct {
 }
 
 type Upload struct {
-	Buf   []byte
-	Check int64  // offset the next write must start at; -1: unchecked
-	Err   string // sticky commit failure: "", "canceled", "DIGEST_INVALID"
+	Buf       []byte
+	Check     int64  // offset the next write must start at; -1: unchecked
+	Err       string // sticky commit failure: "", "canceled", "DIGEST_INVALID"
+	Committed bool   // a commit has succeeded: cancelling is then a no-op
 }
 
 type Repo struct {
@@ -88,6 +90,51 @@ func (m *Model) Clone() *Model {
 		n.Repos[name] = nr
 	}
 	return n
+}
+
+// Key is a canonical rendering of the state (used to recognise equal states).
+func (m *Model) Key() string {
+	var b strings.Builder
+	names := make([]string, 0, len(m.Repos))
+	for n := range m.Repos {
+		names = append(names, n)
+	}
+	sort.Strings(names)
+	for _, n := range names {
+		r := m.Repos[n]
+		fmt.Fprintf(&b, "R%s{", n)
+		ks := make([]string, 0, len(r.Blobs))
+		for k := range r.Blobs {
+			ks = append(ks, k)
+		}
+		sort.Strings(ks)
+		fmt.Fprintf(&b, "B%v", ks)
+		ks = ks[:0]
+		for k, v := range r.Mans {
+			ks = append(ks, k+"/"+v.MT)
+		}
+		sort.Strings(ks)
+		fmt.Fprintf(&b, "M%v", ks)
+		ks = ks[:0]
+		for k, v := range r.Tags {
+			ks = append(ks, k+"="+v.Digest+"/"+v.MediaType)
+		}
+		sort.Strings(ks)
+		fmt.Fprintf(&b, "T%v", ks)
+		ks = ks[:0]
+		for k, v := range r.Uploads {
+			ks = append(ks, fmt.Sprintf("%s:%x:%d:%s:%v", k, sha256.Sum256(v.Buf), v.Check, v.Err, v.Committed))
+		}
+		sort.Strings(ks)
+		fmt.Fprintf(&b, "U%v}", ks)
+	}
+	ss := make([]string, 0, len(m.slots))
+	for k, v := range m.slots {
+		ss = append(ss, fmt.Sprintf("%d=%s/%s", k, v.repo, v.id))
+	}
+	sort.Strings(ss)
+	fmt.Fprintf(&b, "S%v", ss)
+	return b.String()
 }
 
 func newRepo() *Repo {
@@ -903,6 +950,7 @@ func (m *Model) Step(u *ops.Universe, op ops.Op, out ops.Out) string {
 			return fmt.Sprintf("upCommit: descriptor %+v, want digest %s size %d", out.Desc, dg, len(up.Buf))
 		}
 		r.Blobs[dg] = Blob{up.Buf, ops.MTOctet}
+		up.Committed = true
 		m.ev("commit-ok")
 		return ""
 
@@ -914,7 +962,9 @@ func (m *Model) Step(u *ops.Universe, op ops.Op, out ops.Out) string {
 		if s := wantOK(); s != "" {
 			return s
 		}
-		m.Repos[sl.repo].Uploads[sl.id].Err = "canceled"
+		if up := m.Repos[sl.repo].Uploads[sl.id]; !(up.Committed && up.Err == "") {
+			up.Err = "canceled"
+		}
 		m.ev("upload-cancelled")
 		return ""
 
